@@ -200,7 +200,9 @@ func BuildPath(root string, banned ...string) *Outcome {
 // BuildMem builds a project whose root content is handed over in memory (INCLUDEs still come from disk).
 func BuildMem(name string, data []byte, banned ...string) *Outcome {
 	o := &Outcome{}
-	guard(o, func() (kit.JApi, *jerr.JApiError) { return kit.NewJApiFromFile(fs.NewFile(name, data), bannedOption(banned)...) })
+	guard(o, func() (kit.JApi, *jerr.JApiError) {
+		return kit.NewJApiFromFile(fs.NewFile(name, data), bannedOption(banned)...)
+	})
 	return o
 }
 
